@@ -26,6 +26,7 @@ import (
 	"github.com/gordian-engine/gordian/tm/tmdriver"
 	"github.com/gordian-engine/gordian/tm/tmengine/internal/tmeil"
 	"github.com/gordian-engine/gordian/tm/tmengine/internal/tmstate"
+	"github.com/gordian-engine/gordian/tm/tmengine/internal/tmstate/internal/tsi"
 	"github.com/gordian-engine/gordian/tm/tmengine/tmelink"
 	"github.com/gordian-engine/gordian/tm/tmstore"
 	"github.com/gordian-engine/gordian/tm/tmstore/tmmemstore"
@@ -98,6 +99,7 @@ type smWorld struct {
 	entrances      [][2]uint64
 	stratCalls     map[string]int // "kind/h/r"
 	prevoteAnswers map[string][]string
+	prevoteOut     map[string]bool // rounds whose prevote action has reached the mirror
 	decideDueAt    map[string]int // "h/r" -> event count when a precommit decision became due
 	decideDueWhy   map[string]string
 	clockPasses    bool // virtual wall-clock time may pass while the state machine is busy (exposes its 100 ms guards)
@@ -643,7 +645,7 @@ func runSM(s *vsimcore.Sim, p vsimcore.Params) vsimcore.RunInfo {
 	fx := tmconsensustest.NewEd25519Fixture(n)
 	w := &smWorld{s: s, fx: fx, n: n, rounds: map[string]*smRound{}, committed: map[uint64]tmconsensus.CommittedHeader{},
 		lastSent: map[string]uint32{}, finalizeAsked: map[uint64]string{}, finalizeResp: map[uint64]bool{}, finSaved: map[uint64]bool{},
-		stratCalls: map[string]int{}, prevoteAnswers: map[string][]string{}, decideDueAt: map[string]int{}, decideDueWhy: map[string]string{}, signed: map[string]map[string]bool{},
+		stratCalls: map[string]int{}, prevoteAnswers: map[string][]string{}, prevoteOut: map[string]bool{}, decideDueAt: map[string]int{}, decideDueWhy: map[string]string{}, signed: map[string]map[string]bool{},
 		saved: map[string]bool{}, released: map[string]bool{}, advanceOK: map[string]string{},
 		aStore: tmmemstore.NewActionStore(), fStore: tmmemstore.NewFinalizationStore(), smStore: tmmemstore.NewStateMachineStore()}
 	w.oracles = map[string]bool{}
@@ -669,6 +671,19 @@ func runSM(s *vsimcore.Sim, p vsimcore.Params) vsimcore.RunInfo {
 			// changes only once the mirror has answered the entrance, before which the state machine
 			// cannot issue anything for the new round)
 			w.reqH, w.reqR = w.cmH, w.cmR
+			// rule 4: once the prevote of the round is out, the strategy is not asked to choose it again
+			kind := ""
+			switch v.(type) {
+			case tsi.ConsiderProposedBlocksRequest:
+				kind = "consider"
+			case tsi.ChooseProposedBlockRequest:
+				kind = "choose"
+			}
+			if rk := fmt.Sprintf("%d/%d", w.cmH, w.cmR); kind != "" && w.prevoteOut[rk] {
+				w.mu.Unlock()
+				w.violate("C08/prevote-choice-requested-after-prevote/"+kind, "the state machine made a %s request in %s although its prevote for that round had already been released", kind, rk)
+				w.mu.Lock()
+			}
 			w.mu.Unlock()
 		}
 	})
@@ -999,6 +1014,12 @@ func (w *smWorld) onAction(a tmeil.StateMachineRoundAction) {
 		w.event("action: prevote %x", trunc(a.Prevote.TargetHash))
 		check("prevote", string(a.Prevote.Sig))
 		w.mu.Lock()
+		if w.prevoteOut[rk] {
+			w.mu.Unlock()
+			w.violate("C08/second-prevote", "a second prevote (for %x) was released in %s", a.Prevote.TargetHash, rk)
+			w.mu.Lock()
+		}
+		w.prevoteOut[rk] = true
 		ans := w.prevoteAnswers[rk]
 		if !containsStr(ans, a.Prevote.TargetHash) {
 			w.violate("C08/vote-target-not-from-strategy/prevote", "released a prevote for %x in %s but the strategy's answers were %x", a.Prevote.TargetHash, rk, ans)
